@@ -669,3 +669,58 @@ func (m *Model) shapeHash() uint64 {
 	fmt.Fprintf(h, "s%d", open)
 	return h.Sum64()
 }
+
+// causeOf names the known family of defect that may explain why d is affected: d itself, or a manifest that
+// retains d, was moved out of the index as a child / referrer and its parent was then deleted.
+func (r *MRepo) causeOf(d string) string {
+	if why := r.orphans[d]; why != "" {
+		return why
+	}
+	for _, root := range sortedKeys(r.orphans) {
+		if r.reaches(root, d) {
+			return r.orphans[root]
+		}
+	}
+	return ""
+}
+
+func (r *MRepo) reaches(root, d string) bool {
+	seen := map[string]bool{}
+	stack := []string{root}
+	for len(stack) > 0 {
+		cur := stack[len(stack)-1]
+		stack = stack[:len(stack)-1]
+		if seen[cur] {
+			continue
+		}
+		seen[cur] = true
+		if cur == d {
+			return true
+		}
+		if x, ok := r.mans[cur]; ok {
+			stack = append(stack, x.view.refs...)
+			for ad, a := range r.mans {
+				if a.view.subject == cur {
+					stack = append(stack, ad)
+				}
+			}
+		}
+	}
+	return false
+}
+
+// resyncOrphans stops demanding anything of content that hangs below an orphaned manifest.
+func (r *MRepo) resyncOrphans() {
+	for root := range r.orphans {
+		for d, b := range r.blobs {
+			if r.reaches(root, d) {
+				b.maybeGone = true
+			}
+		}
+		for d, x := range r.mans {
+			if r.reaches(root, d) {
+				x.maybeGone = true
+			}
+		}
+	}
+}
